@@ -679,6 +679,13 @@ pub fn gen_world(rng: &mut Rng, arch: &str, with_cfi: bool) -> World {
         } as u32;
         // sometimes overlap the previous module
         let base = if i > 0 && rng.chance(1, 6) { w.mods[i as usize - 1].0.wrapping_add(rng.below(0x800)) } else { base };
+        // ... or sit exactly behind it (first byte = one past the previous module's last byte)
+        let base = if i > 0 && rng.chance(1, 6) {
+            let (pb, pz, _) = &w.mods[i as usize - 1];
+            pb.wrapping_add(*pz as u64)
+        } else {
+            base
+        };
         let name = format!("m{i}");
         let mut recs = vec![];
         let mut cycle_entry: Option<u64> = None;
@@ -755,6 +762,12 @@ pub fn gen_world(rng: &mut Rng, arch: &str, with_cfi: bool) -> World {
             w.rets.push(base.wrapping_add(rng.below(size as u64)));
             w.rets.push(base.wrapping_add(1));
             w.rets.push(base.wrapping_add(size as u64));
+            // return addresses whose LOOKUP address (ret - call adjustment) is the first / last byte of the
+            // module or the first byte behind it (= first byte of a module mapped right after it)
+            let adj = adj_of(arch);
+            w.rets.push(base.wrapping_add(size as u64).wrapping_add(adj));
+            w.rets.push(base.wrapping_add(size as u64).wrapping_add(adj).wrapping_sub(1));
+            w.rets.push(base.wrapping_add(adj));
         }
         w.mods.push((base, size, name));
     }
